@@ -2,18 +2,18 @@ SPECIFICATION Spec
 CONSTANTS
   Cfg0 <- MCfg
   Types <- MTypes
-  MaxEv = 4
+  MaxEv = 2
   MaxAct = 4
   Budget = 2
   NDrv = 1
   DrvBudget = 2
-  MaxDepth = 3
+  MaxDepth = 2
   QueueCap = 0
   HardLimit = 0
   WithErrors = FALSE
-  WithIdle = TRUE
+  WithIdle = FALSE
   WithSleep = FALSE
-  WithWalFaults = FALSE
+  WithWalFaults = TRUE
   WithStop = FALSE
   TimeoutTypes = {}
   KeepLog = FALSE
